@@ -407,7 +407,14 @@ func DecodeText(t *schema.Type, s string, ctx Ctx) (*schema.V, error) {
 
 // ---------------------------------------------------------------- encode
 
+type ExtraField struct {
+	Name  string
+	Value string // raw ROR2
+	Pos   int    // 0 first, 1 after the first entry, -1 last
+}
+
 type Options struct {
+	Extra      *ExtraField // inject an unknown entry into every record map
 	KeyOrder   func([]string) []string
 	LowerHex   bool // %e9 instead of %E9
 	EscapeMore bool // percent-encode unreserved letters too (legal)
@@ -469,6 +476,15 @@ func Encode(v *schema.V, ctx Ctx, o *Options) string {
 }
 
 func enc(sb *strings.Builder, v *schema.V, ctx Ctx, o *Options) {
+	if v.Bad {
+		switch v.T.Base().Kind {
+		case schema.String, schema.Bytes, schema.Fixed, schema.Enum:
+			sb.WriteString("List(7)")
+		default:
+			sb.WriteString("zz")
+		}
+		return
+	}
 	switch v.T.Base().Kind {
 	case schema.Int32, schema.Int64:
 		sb.WriteString(strconv.FormatInt(v.I, 10))
@@ -501,15 +517,21 @@ func enc(sb *strings.Builder, v *schema.V, ctx Ctx, o *Options) {
 		if o.KeyOrder != nil {
 			keys = o.KeyOrder(keys)
 		}
-		sb.WriteByte('(')
-		for i, k := range keys {
-			if i > 0 {
-				sb.WriteByte(',')
-			}
-			sb.WriteString(escape(k, ctx, &Options{LowerHex: o.LowerHex}))
-			sb.WriteByte(':')
-			enc(sb, v.Fields[k], ctx, o)
+		var ents []string
+		for _, k := range keys {
+			var inner strings.Builder
+			enc(&inner, v.Fields[k], ctx, o)
+			ents = append(ents, escape(k, ctx, &Options{LowerHex: o.LowerHex})+":"+inner.String())
 		}
+		if o.Extra != nil {
+			pos := o.Extra.Pos
+			if pos < 0 || pos > len(ents) {
+				pos = len(ents)
+			}
+			ents = append(ents[:pos], append([]string{o.Extra.Name + ":" + o.Extra.Value}, ents[pos:]...)...)
+		}
+		sb.WriteByte('(')
+		sb.WriteString(strings.Join(ents, ","))
 		sb.WriteByte(')')
 	case schema.Union:
 		if v.Alias == "" {
